@@ -18,29 +18,29 @@ let class_of (s : string) : K.run_class =
   | "OK" -> K.ClOK | "ERR" -> K.ClERR | "PANIC" -> K.ClPANIC | "HANG" -> K.ClHANG | "OOM" -> K.ClOOM
   | _ -> K.ClEXIT
 
-let decode_items (body : string) : K.item list =
+let decode_items (body : string) : K.LoaderM.item list =
   List.filter_map (fun it ->
     let it = String.trim it in
     if it = "" then None
     else match prefix_strip "I " it with
-      | Some h -> Some (K.IInc (str_of_string (unhex (String.trim h))))
-      | None -> (match decode_directive it with Some d -> Some (K.IDir d) | None -> None))
+      | Some h -> Some (K.LoaderM.IInc (str_of_string (unhex (String.trim h))))
+      | None -> (match decode_directive it with Some d -> Some (K.LoaderM.IDir d) | None -> None))
     (split_str " ; " body)
 
 (* the tree as the model's file system; raw files (F) in a predicted case are unparseable by
    the generator's contract, U and D cannot be read *)
-let decode_tree (tree : string) : (K.z list list * K.fcontent) list * K.z list list =
+let decode_tree (tree : string) : (K.z list list * K.LoaderM.fcontent) list * K.z list list =
   let entries = List.filter_map (fun e ->
     match String.split_on_char ':' e with
     | [k; p; c] ->
-      let path = K.path_of_string (str_of_string (unhex p)) in
-      let content = if k = "J" then K.FOk (decode_items (unhex c)) else K.FBad in
+      let path = K.LoaderM.path_of_string (str_of_string (unhex p)) in
+      let content = if k = "J" then K.LoaderM.FOk (decode_items (unhex c)) else K.LoaderM.FBad in
       Some (path, content)
     | _ -> None) (fields tree) in
-  let root = match entries with (p, _) :: _ -> p | [] -> K.path_of_string (str_of_string "missing.knut") in
+  let root = match entries with (p, _) :: _ -> p | [] -> K.LoaderM.path_of_string (str_of_string "missing.knut") in
   (entries, root)
 
-let string_of_pred = function K.PredOK -> "OK" | K.PredERR -> "ERR" | K.PredPANIC -> "PANIC"
+let string_of_pred = function K.CliSafeM.PredOK -> "OK" | K.CliSafeM.PredERR -> "ERR" | K.CliSafeM.PredPANIC -> "PANIC"
 
 let () =
   register "C14.run" (fun inp obs ->
@@ -63,7 +63,7 @@ let () =
     let include_failure =
       if cls = "OK" && cmd <> "format" && tree <> "" && (predicted || not has_raw) then
         (let (fs, root) = decode_tree tree in
-         match K.load_error fs root with Some k -> Some (string_of_str k) | None -> None)
+         match K.CliSafeM.load_error fs root with Some k -> Some (string_of_str k) | None -> None)
       else None in
     let spec =
       if include_failure <> None then
@@ -83,11 +83,11 @@ let () =
           let r = string_of_pred r and p = string_of_pred p in
           if r = p || p = "PANIC" then r else r ^ "|" ^ p in
         match cmd with
-        | "check" -> both (K.check_fs true fs root) (K.check_fs_pinned true fs root)
-        | "print" -> both (K.print_fs true fs root) (K.print_fs_pinned true fs root)
+        | "check" -> both (K.CliSafeM.check_fs true fs root) (K.CliSafeM.check_fs_pinned true fs root)
+        | "print" -> both (K.CliSafeM.print_fs true fs root) (K.CliSafeM.print_fs_pinned true fs root)
         | "balance" ->
           (match prefix_strip "bal " flags with
-           | Some c -> let bc = (decode_cfg c).bc in both (K.balance_fs bc fs root) (K.balance_fs_pinned bc fs root)
+           | Some c -> let bc = (decode_cfg c).bc in both (K.CliSafeM.balance_fs bc fs root) (K.CliSafeM.balance_fs_pinned bc fs root)
            | None -> "-")
         | _ -> "-"
       end in
